@@ -210,6 +210,7 @@ impl Screen {
         self.dirty.extend(0..lines);
 
         if lines < self.lines {
+            self.margins = None;
             self.save_cursor();
             self.cursor_position(Some(0), Some(0));
             self.delete_lines(Some(self.lines - lines)); // Drop from the top.
